@@ -400,8 +400,19 @@ func rulePipeStages(c *Ctx) {
 					for _, l := range guard {
 						gl = append(gl, l...)
 					}
+					// or is_execution_enabled written out: is_merge_transition_complete(state) asked on every path to
+					// the stage, and is_merge_transition_block(state, body) asked as well
+					var completed, block []callLoc
+					for _, l := range cfgCallsDeep(c.P, pk, g, func(q string, f *types.Func) bool { return f.Name() == "IsTransitionCompleted" }, 0) {
+						completed = append(completed, l...)
+					}
+					for _, l := range cfgCallsDeep(c.P, pk, g, func(q string, f *types.Func) bool { return f.Name() == "IsTransitionBlock" }, 0) {
+						block = append(block, l...)
+					}
 					if cuts(g, gl, []*cfg.Block{locs[0].blk}) {
 						c.ok(key, locs[0].call.Pos(), "runs iff IsExecutionEnabled")
+					} else if len(block) > 0 && cuts(g, completed, []*cfg.Block{locs[0].blk}) {
+						c.ok(key, locs[0].call.Pos(), "runs iff IsTransitionCompleted or IsTransitionBlock (is_execution_enabled written out)")
 					} else {
 						c.bad(key, locs[0].call.Pos(), "conditional stage %s is not governed by IsExecutionEnabled", w)
 					}
@@ -562,6 +573,7 @@ func ruleSlotsOrder(c *Ctx) {
 			}
 		})
 	}
+	var alsoAt []ast.Node // further sites of the same call in the innermost frame (mutually exclusive branches)
 	onEveryPath := func(st inlSite) bool {
 		var node ast.Node = st.call
 		for fr := st.env; fr != nil; fr = fr.up {
@@ -577,6 +589,13 @@ func ruleSlotsOrder(c *Ctx) {
 					ast.Inspect(nd, func(k ast.Node) bool {
 						if k == node {
 							hit = true
+						}
+						if fr == st.env {
+							for _, o := range alsoAt {
+								if k == o {
+									hit = true
+								}
+							}
 						}
 						return !hit
 					})
@@ -619,6 +638,21 @@ func ruleSlotsOrder(c *Ctx) {
 	for _, n := range []string{"ProcessSlot", "SetSlot", "UpgradeMaybe"} {
 		key := "ProcessSlots." + n
 		l := bySite[n]
+		if len(l) > 1 && sitesExclusive(l) {
+			// one call in each branch of an if/else: no path passes two of them, and together they must be on every path
+			alsoAt = nil
+			for _, o := range l[1:] {
+				alsoAt = append(alsoAt, o.call)
+			}
+			okAll := onEveryPath(l[0])
+			alsoAt = nil
+			if okAll {
+				c.ok(key, l[0].call.Pos(), "once per slot on every path (one call in each of %d exclusive branches)", len(l))
+			} else {
+				c.bad(key, l[0].call.Pos(), "a path completes a slot iteration without %s", n)
+			}
+			continue
+		}
 		if len(l) != 1 {
 			c.bad(key, loop.Pos(), "%s is called %d times per slot", n, len(l))
 			continue
@@ -708,14 +742,31 @@ func ruleSlotsOrder(c *Ctx) {
 	order := []string{"ProcessSlot", "ProcessEpoch", "SetSlot", "RotateEpochs", "UpgradeMaybe"}
 	for i := 0; i+1 < len(order); i++ {
 		a, b := bySite[order[i]], bySite[order[i+1]]
-		if len(a) != 1 || len(b) != 1 {
+		if len(a) == 0 || len(b) == 0 || (len(a) > 1 && !sitesExclusive(a)) || (len(b) > 1 && !sitesExclusive(b)) {
 			continue
 		}
 		key := "ProcessSlots." + order[i] + "<" + order[i+1]
-		if a[0].seq < b[0].seq {
+		// every pair that one path can pass (not in opposite branches of an if/else) is in order
+		inOrder, pairs := true, 0
+		var at token.Pos
+		for _, x := range a {
+			for _, y := range b {
+				if sitesExclusive([]inlSite{x, y}) {
+					continue
+				}
+				pairs++
+				if !(x.seq < y.seq) {
+					inOrder, at = false, y.call.Pos()
+				}
+			}
+		}
+		if pairs == 0 {
+			continue
+		}
+		if inOrder {
 			c.ok(key, b[0].call.Pos(), "in order")
 		} else {
-			c.bad(key, b[0].call.Pos(), "%s must run before %s within a slot", order[i], order[i+1])
+			c.bad(key, at, "%s must run before %s within a slot", order[i], order[i+1])
 		}
 	}
 	// the slot counter (the variable of the loop test that the round assigns) moves up by exactly one per round
@@ -1153,26 +1204,45 @@ func ruleEngineVerdict(c *Ctx) {
 				}
 				continue
 			}
-			vu := findVerdictUse(info, fd, parents, call)
-			if vu == nil {
+			as, isAs := parents[call].(*ast.AssignStmt)
+			if !isAs || len(as.Lhs) != 2 || len(as.Rhs) != 1 {
 				c.unm(key, call.Pos(), "engine result is not assigned to (ok, err)")
 				continue
 			}
-			if vu.errIf == nil || !returnsFalseErr(info, vu.errIf.Body, vu.errObj) {
-				c.bad(key, call.Pos(), "an engine error is not turned into (false, err)")
+			okId, _ := ast.Unparen(as.Lhs[0]).(*ast.Ident)
+			errId, _ := ast.Unparen(as.Lhs[1]).(*ast.Ident)
+			if okId == nil || errId == nil || info.ObjectOf(okId) == nil || info.ObjectOf(errId) == nil {
+				c.unm(key, call.Pos(), "engine result is not assigned to (ok, err)")
 				continue
 			}
-			if vu.okIf == nil {
-				c.bad(key, call.Pos(), "the engine's `false` answer is not examined")
+			okObj, errObj := info.ObjectOf(okId), info.ObjectOf(errId)
+			// decided on the control-flow graph: with the engine's error in hand every path returns it; with the answer
+			// taken to be `false` every path returns false, and none reaches the next engine query
+			if reaches, why := errReaches(info, fd.Body, fd.Type.Results, as, errObj, nil); !reaches {
+				c.bad(key, call.Pos(), "an engine error is not turned into (false, err): %s", why)
 				continue
 			}
-			if fb := vu.failBranch(parents); fb == nil || !returnsFalseNil(fb) {
-				c.bad(key, call.Pos(), "the engine's `false` answer does not yield (false, nil)")
+			var next ast.Node
+			if i+1 < len(calls) {
+				next = calls[i+1]
+			}
+			outs, reachedNext, okW := outcomesAfter(info, fd.Body, as, map[types.Object]bool{okObj: false}, next)
+			if !okW || len(outs) == 0 {
+				c.unm(key, call.Pos(), "the engine query is not on the control-flow graph of its function")
 				continue
 			}
-			// both tests stand before the next engine query (or the end)
-			if i+1 < len(calls) && (!precedes(parents, vu.errIf, calls[i+1]) || !precedes(parents, vu.okIf, calls[i+1])) {
-				c.bad(key, call.Pos(), "the next engine query can be reached without examining this answer")
+			allFalse := true
+			for _, o := range outs {
+				if o.ret == nil || o.decided >= 0 {
+					allFalse = false
+				}
+			}
+			switch {
+			case reachedNext:
+				c.bad(key, call.Pos(), "the next engine query can be reached although this answer was `false`")
+				continue
+			case !allFalse:
+				c.bad(key, call.Pos(), "the engine's `false` answer does not yield (false, nil) on every path")
 				continue
 			}
 			c.ok(key, call.Pos(), "err => (false, err); !ok => (false, nil)")
@@ -1203,34 +1273,42 @@ func ruleEngineVerdict(c *Ctx) {
 			c.bad(key, set[0].call.Pos(), "the payload header can be stored without consulting the engine")
 			continue
 		}
-		// verdict handling: if valid, err := V(...); err != nil { return error } else if !valid { return error }
+		// verdict handling, decided on the control-flow graph: with the engine's error in hand every path returns it;
+		// with the verdict taken to be `invalid` every path returns an error and none reaches the header store
 		parents := parentMap(fd.Body)
-		vu := findVerdictUse(info, fd, parents, vn[0].call)
-		if vu == nil {
+		as, isAs := parents[vn[0].call].(*ast.AssignStmt)
+		var validObj, errObj types.Object
+		if isAs && len(as.Lhs) == 2 && len(as.Rhs) == 1 {
+			if a0, ok := ast.Unparen(as.Lhs[0]).(*ast.Ident); ok {
+				validObj = info.ObjectOf(a0)
+			}
+			if a1, ok := ast.Unparen(as.Lhs[1]).(*ast.Ident); ok {
+				errObj = info.ObjectOf(a1)
+			}
+		}
+		if validObj == nil || errObj == nil {
 			c.unm(key, vn[0].call.Pos(), "the engine's answer is not assigned to (valid, err)")
 			continue
 		}
-		switch {
-		case vu.errIf == nil || !endsInErrorReturn(info, vu.errIf.Body, nil, fd) || !precedes(parents, vu.errIf, set[0].call):
-			c.bad(key, vn[0].call.Pos(), "an engine error does not make ProcessExecutionPayload fail")
-		case func() bool {
-			// every path taken with the engine's error in hand ends in a return that is certainly an error: one that
-			// carries that error, or a freshly constructed one (errors.New / fmt.Errorf); a return of some other call's
-			// result (ctx.Err()) may be nil and would report success for a payload the engine never accepted
-			ok, _ := errReachesStrict(info, fd.Body, fd.Type.Results, vu.errIf.Cond, vu.errObj)
-			return !ok
-		}():
-			c.bad(key, vn[0].call.Pos(), "on an engine error some path returns a value that is not certainly an error (neither the engine's error nor a newly built one): ProcessExecutionPayload can report success for a payload the engine did not accept")
-		case vu.okIf == nil:
-			c.bad(key, vn[0].call.Pos(), "the engine's `invalid` verdict is not examined: an unapproved payload is accepted")
-		default:
-			fb := vu.failBranch(parents)
-			okDom := precedes(parents, vu.okIf, set[0].call) || (!vu.okNeg && mentionsNode(vu.okIf.Body, set[0].call))
-			if fb == nil || !endsInErrorReturn(info, fb, nil, fd) || !okDom {
+		if reaches, why := errReaches(info, fd.Body, fd.Type.Results, as, errObj, nil); !reaches {
+			c.bad(key, vn[0].call.Pos(), "an engine error does not make ProcessExecutionPayload fail with that error (%s): it can report success for a payload the engine did not accept", why)
+		} else if outs, stored, okW := outcomesAfter(info, fd.Body, as, map[types.Object]bool{validObj: false}, set[0].call); !okW || len(outs) == 0 {
+			c.unm(key, vn[0].call.Pos(), "the engine consultation is not on the control-flow graph of its function")
+		} else {
+			refused := true
+			for _, o := range outs {
+				if o.ret == nil || !refusalReturn(info, o.ret, fd) {
+					refused = false
+				}
+			}
+			switch {
+			case stored:
+				c.bad(key, set[0].call.Pos(), "the payload header is stored although the engine's verdict was `invalid`")
+			case !refused:
 				c.bad(key, vn[0].call.Pos(), "the engine's `invalid` verdict does not make ProcessExecutionPayload fail")
-			} else if set[0].call.Pos() < vn[0].call.Pos() {
+			case set[0].call.Pos() < vn[0].call.Pos():
 				c.bad(key, set[0].call.Pos(), "payload header stored before the engine verdict")
-			} else {
+			default:
 				c.ok(key, vn[0].call.Pos(), "err => error, !valid => error, header stored afterwards")
 			}
 		}
@@ -1260,6 +1338,15 @@ func ruleEngineVerdict(c *Ctx) {
 							return true
 						})
 					}
+				}
+			}
+		}
+		if req == nil {
+			// built field by field (var req NewPayloadRequest; req.F = v): read as the literal it amounts to
+			if bs := structBuilds(info, fd.Body, "NewPayloadRequest"); len(bs) == 1 && len(bs[0].fields) > 0 {
+				req = &ast.CompositeLit{Lbrace: bs[0].pos, Rbrace: bs[0].pos}
+				for _, fname := range sortedKeys(bs[0].fields) {
+					req.Elts = append(req.Elts, &ast.KeyValueExpr{Key: &ast.Ident{Name: fname, NamePos: bs[0].pos}, Value: bs[0].fields[fname]})
 				}
 			}
 		}
@@ -1322,11 +1409,17 @@ func ruleEngineVerdict(c *Ctx) {
 					if !ok {
 						continue
 					}
-					// the receiver is the element of a range statement around the call
+					// the receiver is the element of a range statement around the call (or of a counting loop over the
+					// same list: for i := 0; i < len(xs); i++ { … xs[i] … }, read as the range it amounts to)
 					var rs *ast.RangeStmt
 					for q := st.env.parents[st.call]; q != nil && rs == nil; q = st.env.parents[q] {
 						if r, ok := q.(*ast.RangeStmt); ok {
 							rs = r
+						}
+						if fs, ok := q.(*ast.ForStmt); ok {
+							if r := countingAsRange(st.env.info, fs); r != nil {
+								rs = r
+							}
 						}
 					}
 					if rs == nil {
@@ -1352,19 +1445,29 @@ func ruleEngineVerdict(c *Ctx) {
 					if fieldOf(rx, rfr) != "BlobKZGCommitments" {
 						continue
 					}
-					// collected by append into the value the request is given
-					ap, ok := st.env.parents[st.call].(*ast.CallExpr)
-					if !ok {
-						continue
+					// collected by append into the value the request is given, or stored at the element's own position
+					var dst types.Object
+					if ap, ok := st.env.parents[st.call].(*ast.CallExpr); ok {
+						if id, ok := ap.Fun.(*ast.Ident); !ok || id.Name != "append" {
+							continue
+						}
+						as, ok := st.env.parents[ap].(*ast.AssignStmt)
+						if !ok || len(as.Lhs) != 1 {
+							continue
+						}
+						dst = st.env.info.ObjectOf(identOrNil(as.Lhs[0]))
+					} else if as, ok := st.env.parents[st.call].(*ast.AssignStmt); ok && len(as.Lhs) == 1 && len(as.Rhs) == 1 {
+						ix, ok := ast.Unparen(as.Lhs[0]).(*ast.IndexExpr)
+						kid, okK := rs.Key.(*ast.Ident)
+						if !ok || !okK {
+							continue
+						}
+						iid, okI := ast.Unparen(ix.Index).(*ast.Ident)
+						if !okI || st.env.info.ObjectOf(iid) != st.env.info.ObjectOf(kid) {
+							continue
+						}
+						dst = st.env.info.ObjectOf(identOrNil(ix.X))
 					}
-					if id, ok := ap.Fun.(*ast.Ident); !ok || id.Name != "append" {
-						continue
-					}
-					as, ok := st.env.parents[ap].(*ast.AssignStmt)
-					if !ok || len(as.Lhs) != 1 {
-						continue
-					}
-					dst := st.env.info.ObjectOf(identOrNil(as.Lhs[0]))
 					if dst == nil {
 						continue
 					}
@@ -1911,4 +2014,40 @@ func limitPairs(p *Prog, pk *packages.Package, fd *ast.FuncDecl, idEnv map[types
 	}
 	walk(fd.Body, selEnv)
 	return out
+}
+
+
+// sitesExclusive: the sites stand in one frame, each pair in opposite branches of an if/else (no path passes two).
+func sitesExclusive(l []inlSite) bool {
+	if len(l) < 2 {
+		return false
+	}
+	for i := 0; i < len(l); i++ {
+		for j := i + 1; j < len(l); j++ {
+			a, b := l[i], l[j]
+			if a.env != b.env {
+				return false
+			}
+			// the innermost statement that holds both
+			inside := func(n ast.Node, outer ast.Node) bool {
+				return outer != nil && n.Pos() >= outer.Pos() && n.End() <= outer.End()
+			}
+			excl := false
+			for p := a.env.parents[ast.Node(a.call)]; p != nil; p = a.env.parents[p] {
+				if !inside(b.call, p) {
+					continue
+				}
+				if is, ok := p.(*ast.IfStmt); ok && is.Else != nil {
+					if (inside(a.call, is.Body) && inside(b.call, is.Else)) || (inside(b.call, is.Body) && inside(a.call, is.Else)) {
+						excl = true
+					}
+				}
+				break
+			}
+			if !excl {
+				return false
+			}
+		}
+	}
+	return true
 }
